@@ -452,9 +452,12 @@ func (b *Board) IsPseudoLegal(m move.Move) bool {
 		}
 
 		if RankBB(SeventhRank.FromPerspectiveOf(b.STM))&fromBB != 0 {
-			if m.Promo() == NoPiece {
+			// a pawn leaving its seventh rank promotes, and only to a knight, bishop, rook or queen
+			if m.Promo() < Knight || m.Promo() > Queen {
 				return false
 			}
+		} else if m.Promo() != NoPiece {
+			return false
 		}
 
 		switch Abs(from.File() - to.File()) {
